@@ -168,3 +168,75 @@ func tailStr(s string, n int) string {
 	}
 	return s
 }
+
+// ColdStart: "first call of the process" probes. Lazily built tables and caches make the very
+// first use of an entry point special; a harness that has already exercised the library cannot
+// see that. Each named probe runs in a fresh child process (this binary re-executed) whose first
+// and only library calls are the probe's. probe returns "" if the result is right.
+// In the child, ColdStart runs the requested probe and exits; call it right after Start.
+func (r *Run) ColdStart(probes map[string]func() string) {
+	if name := os.Getenv("VERIF_COLD"); name != "" {
+		p := probes[name]
+		if p == nil {
+			fmt.Println("unknown probe " + name)
+			os.Exit(4)
+		}
+		var why string
+		_, st, panicked := Catch(func() { why = p() })
+		if panicked {
+			why = "panicked at " + PanicSite(st)
+		}
+		if why != "" {
+			fmt.Println(why)
+			os.Exit(3)
+		}
+		os.Exit(0)
+	}
+	if r.IsShard() || r.ReplaySig != "" {
+		return
+	}
+	names := make([]string, 0, len(probes))
+	for n := range probes {
+		names = append(names, n)
+	}
+	sort.Strings(names)
+	type res struct {
+		code int
+		out  string
+	}
+	results := make([]res, len(names))
+	var wg sync.WaitGroup
+	sem := make(chan struct{}, r.Workers)
+	for i, n := range names {
+		wg.Add(1)
+		sem <- struct{}{}
+		go func(i int, n string) {
+			defer wg.Done()
+			defer func() { <-sem }()
+			cmd := exec.Command(os.Args[0], "-tier", r.Tier)
+			cmd.Env = append(os.Environ(), "VERIF_COLD="+n)
+			out, err := cmd.CombinedOutput()
+			results[i].out = strings.TrimSpace(string(out))
+			if err != nil {
+				if ee, ok := err.(*exec.ExitError); ok {
+					results[i].code = ee.ExitCode()
+				} else {
+					results[i].code = 2
+				}
+			}
+		}(i, n)
+	}
+	wg.Wait()
+	for i, n := range names {
+		r.Eval(1)
+		r.Nontrivial(1)
+		switch results[i].code {
+		case 0:
+		case 3:
+			r.Violation(n+"|wrong-as-first-call-of-the-process", fmt.Sprintf("in a fresh process whose first library call is %s: %s", n, tailStr(results[i].out, 600)), map[string]any{"first_call": n}, "")
+		default:
+			Infra("cold-start probe %s could not run (exit %d): %s", n, results[i].code, tailStr(results[i].out, 1500))
+		}
+	}
+	r.Section(map[string]any{"family": "first call of a fresh process", "probes": names})
+}
